@@ -16,3 +16,16 @@ pub fn linkage_steps(
         .map(|s| (s.cluster1, s.cluster2, s.dissimilarity, s.size))
         .collect()
 }
+
+/// the same for `f32` kernels (`Kernel<f32>` is clustered with `f32` dissimilarities)
+pub fn linkage_steps_f32(
+    condensed: &mut [f32],
+    observations: usize,
+    method: kodama::Method,
+) -> Vec<(usize, usize, f32, usize)> {
+    kodama::linkage(condensed, observations, method)
+        .steps()
+        .iter()
+        .map(|s| (s.cluster1, s.cluster2, s.dissimilarity, s.size))
+        .collect()
+}
